@@ -13,16 +13,48 @@ open Rpft Rpft.Row Rpft.Props.C07
 
 /-! ### spread vs packed -/
 
-/-- general statement: the parsed row does not depend on the (admissible) layout -/
-def layout_independent_full : Prop :=
-  ∀ (fs : List Field) (l₁ l₂ : Layout) (v : Val) (c₁ c₂ : Out),
-    wfFieldNames fs = true → Representable (plainTop fs) v = true →
-    Admissible { top := plainTop fs } l₁ = true → Admissible { top := plainTop fs } l₂ = true →
-    AnySpreadOk { top := plainTop fs } l₁ v = true → AnySpreadOk { top := plainTop fs } l₂ v = true →
-    unparseRow { top := plainTop fs } l₁ v = .ok c₁ → unparseRow { top := plainTop fs } l₂ v = .ok c₂ →
-    parseRow { top := plainTop fs } c₁ = parseRow { top := plainTop fs } c₂
+/-- **Layout independence (general)**: for every row model of the family `goodTop` (any
+nesting, remapped headers), any two layouts that are `LayoutOk` for the value give rows that
+parse equally — a list as `f.1, f.2, …` or one `f` cell, a sub-record as `f.a, f.b` or one
+cell, list elements packed or spread one by one, at every depth.  Corollary of
+`C07.parse_unparse`. -/
+theorem layout_independent (sch : Schema) (l₁ l₂ : Layout) (v : Val) (c₁ c₂ : Out)
+    (hg : goodTop sch.top = true) (hr : Representable sch.top v = true)
+    (h₁ : LayoutOk sch l₁ v = true) (h₂ : LayoutOk sch l₂ v = true)
+    (r₁ : RemapConsistent sch l₁ v = true) (r₂ : RemapConsistent sch l₂ v = true)
+    (hc₁ : unparseRow sch l₁ v = .ok c₁) (hc₂ : unparseRow sch l₂ v = .ok c₂) :
+    parseRow sch c₁ = parseRow sch c₂ := by
+  obtain ⟨d₁, e₁, p₁⟩ := parse_unparse sch l₁ v hg hr h₁ r₁
+  obtain ⟨d₂, e₂, p₂⟩ := parse_unparse sch l₂ v hg hr h₂ r₂
+  rw [hc₁] at e₁; rw [hc₂] at e₂
+  cases e₁; cases e₂
+  rw [p₁, p₂]
 
-/-- **Layout independence** (corollary of C07 for its proved family): a list given as
+/-- the same for flow rows (`FlowRowModel` with its remapped headers) -/
+theorem layout_independent_flow (l₁ l₂ : Layout) (kvs : List (Str × Val)) (c₁ c₂ : Out)
+    (hr : Representable flowRowSchema.top (.model kvs) = true) (hm : flowMainOk kvs = true)
+    (h₁ : LayoutOk flowRowSchema l₁ (.model kvs) = true)
+    (h₂ : LayoutOk flowRowSchema l₂ (.model kvs) = true)
+    (hc₁ : unparseRow flowRowSchema l₁ (.model kvs) = .ok c₁)
+    (hc₂ : unparseRow flowRowSchema l₂ (.model kvs) = .ok c₂) :
+    parseRow flowRowSchema c₁ = parseRow flowRowSchema c₂ := by
+  obtain ⟨d₁, e₁, p₁⟩ := flow_row_roundtrip l₁ kvs hr h₁ hm
+  obtain ⟨d₂, e₂, p₂⟩ := flow_row_roundtrip l₂ kvs hr h₂ hm
+  rw [hc₁] at e₁; rw [hc₂] at e₂
+  cases e₁; cases e₂
+  rw [p₁, p₂]
+
+/-- non-vacuity: the deep example of C07 in two layouts gives two different rows (19 and 15
+cells) that parse to the same value; the flow row example likewise -/
+example :
+    (match unparseRow exDeepSch exDeepLays[0]! exDeepVal, unparseRow exDeepSch exDeepLays[2]! exDeepVal with
+      | .ok c₁, .ok c₂ => c₁.length != c₂.length && (match parseRow exDeepSch c₁, parseRow exDeepSch c₂ with
+        | .ok a, .ok b => a == b
+        | _, _ => false)
+      | _, _ => false) = true := by decide +kernel
+
+/-- **Layout independence, first round** (corollary of C07's `parse_unparse_partial`, with the
+static `Admissible`): a list given as
 `f.1, f.2, …` or as one `f` cell, a sub-record given as `f.a, f.b` or as one cell — per
 field independently — parse to the same row. -/
 theorem layout_independent_partial (fs : List Field) (l₁ l₂ : Layout) (v : Val) (c₁ c₂ : Out)
